@@ -139,6 +139,6 @@ ASSUME = ['components need no escaping (token characters in names/values, arbitr
           'distinct query keys and cookie names', 'containers are unordered: order-dependent parts of the dumps are canonicalised (sorted) on both sides']
 
 def run(tier):
-    return core.standard_run(PROP, tier, MODULES, THEOREMS, gen, oracle, classify, RULE, ASSUME, driver=('drv_live', drivers.LIVE_SOURCES))
+    return core.standard_run(PROP, tier, MODULES, THEOREMS, gen, oracle, classify, RULE, ASSUME, driver=('drv_live', drivers.LIVE_SOURCES), retry=2)
 def replay(path):
     return core.standard_replay(PROP, path, oracle, driver=('drv_live', drivers.LIVE_SOURCES))
